@@ -5,7 +5,7 @@ from .common import both
 
 ID = 'C20'
 TARGETS = ['theories/Properties/C20.vo']
-THEOREMS = ['C20_gte_lex', 'C20_lt_is_negation', 'C20_gate_monotone', 'C20_parse_show', 'C20_parse_spec', 'C20_parse_is_u8']
+THEOREMS = core.theorems_of(ID)
 LEVEL = ('gte/lt regenerated from src/io/slippi/mod.rs and proved equal to the lexicographic order for all N; '
          'display/parse hand model proved inverse on all u8 triples and characterised exactly; model tied to the code by '
          'exhaustive (thorough) or boundary-slice (quick) differential runs')
